@@ -7,6 +7,9 @@ package main
 //     was taken from; a parameter of an unexported function with one caller is the caller's argument; a field of a struct
 //     parameter is what the caller's literal stored into it; a captured variable is its binding);
 //   - result objects whose error is a variable assigned on the branches (a phi stored into the error field at one exit);
+//   - result objects built by a constructor function (a call of it is the literal it contains, arguments for parameters);
+//   - the timestamp function split into helpers: the regime begins where it calls the helper that handles the
+//     countersignature; the decision table is followed through the helpers that take part in the decision (c06Explorer);
 //   - whole-chain scans: an inline loop, a module helper that contains the loop, or slices.IndexFunc / ContainsFunc with a
 //     predicate — each yields "for every element of the chain these facts hold" on a set of edges.
 
@@ -534,9 +537,237 @@ func c06FrameOf(w *World, fn *ssa.Function) *c06Frame {
 
 // ---------- result objects whose error is a variable ---------------------------------------------------------------
 
-// c06PhiRet: a return of a fresh result object whose error field is written once, with a variable that was assigned on
-// the branches (a phi). The phi's block dominates the return, lies on no cycle, and every return reachable from it is
-// this one: the edge through which the phi's block is entered decides the error this exit reports.
+// ---------- result constructors ------------------------------------------------------------------------------------------
+
+// c06Ctor: a module function that only builds a fresh result object: every return hands out an object allocated in the
+// function, whose error field is either never written (errParam -1: the error is always nil), written once — in a block
+// that dominates the return — with one parameter of the function (errParam: the error of the result IS that argument), or
+// written with a provably non-nil value (errFail). The Type field is a parameter (typeParam) or a constant (typeConst).
+// A call of such a function is the composite literal it contains, with the arguments in place of the parameters.
+type c06Ctor struct {
+	errParam  int
+	errFail   bool
+	typeParam int
+	typeConst string
+}
+
+var c06CtorMemo = map[*ssa.Function]*c06Ctor{}
+
+// c06AllocErr: al is a fresh object that is only filled in field by field (plain stores) and returned. Returns the single
+// store into its error field (nil if the field is never written) and the single store into the field named Type.
+func c06AllocErr(al *ssa.Alloc) (errStore, typeStore *ssa.Store, ok bool) {
+	ef := errFieldOf(al.Type())
+	if ef < 0 || al.Referrers() == nil {
+		return nil, nil, false
+	}
+	for _, ref := range *al.Referrers() {
+		switch x := ref.(type) {
+		case *ssa.DebugRef, *ssa.Return:
+		case *ssa.FieldAddr:
+			for _, rr := range *x.Referrers() {
+				st, isSt := rr.(*ssa.Store)
+				if !isSt || st.Addr != x {
+					if _, isDbg := rr.(*ssa.DebugRef); !isDbg {
+						return nil, nil, false
+					}
+					continue
+				}
+				switch {
+				case x.Field == ef:
+					if errStore != nil {
+						return nil, nil, false
+					}
+					errStore = st
+				case fieldName(al.Type(), x.Field) == "Type":
+					if typeStore != nil {
+						return nil, nil, false
+					}
+					typeStore = st
+				}
+			}
+		default:
+			return nil, nil, false
+		}
+	}
+	return errStore, typeStore, true
+}
+
+func c06CtorOf(w *World, g *ssa.Function) *c06Ctor {
+	if ct, ok := c06CtorMemo[g]; ok {
+		return ct
+	}
+	c06CtorMemo[g] = nil
+	if g == nil || g.Blocks == nil || !w.IsProductFn(g) || g.Signature.Results().Len() != 1 || errFieldOf(g.Signature.Results().At(0).Type()) < 0 {
+		return nil
+	}
+	gi := w.Info(g)
+	paramIdx := func(v ssa.Value) int {
+		for i, p := range g.Params {
+			if ssa.Value(p) == v {
+				return i
+			}
+		}
+		return -1
+	}
+	var out *c06Ctor
+	for _, b := range g.Blocks {
+		r, ok := blockTerm(b).(*ssa.Return)
+		if !ok {
+			continue
+		}
+		ct := &c06Ctor{errParam: -1, typeParam: -1}
+		// a constructor that delegates to another one: what it hands over is what the result holds
+		if call, isCall := r.Results[0].(*ssa.Call); isCall && !call.Call.IsInvoke() {
+			h := staticCallee(call)
+			if h == g {
+				return nil
+			}
+			hc := c06CtorOf(w, h)
+			if hc == nil {
+				return nil
+			}
+			ct.errFail, ct.typeConst = hc.errFail, hc.typeConst
+			if hc.errParam >= 0 && hc.errParam < len(call.Call.Args) && !hc.errFail {
+				a := call.Call.Args[hc.errParam]
+				if i := paramIdx(a); i >= 0 {
+					ct.errParam = i
+				} else if !isNilConst(a) {
+					if !gi.nonNil(a, b) {
+						return nil
+					}
+					ct.errFail = true
+				}
+			}
+			if hc.typeParam >= 0 && hc.typeParam < len(call.Call.Args) {
+				a := call.Call.Args[hc.typeParam]
+				if i := paramIdx(a); i >= 0 {
+					ct.typeParam = i
+				} else if k, isK := a.(*ssa.Const); isK {
+					ct.typeConst = constString(k)
+				}
+			}
+			if out != nil && *out != *ct {
+				return nil
+			}
+			out = ct
+			continue
+		}
+		al, ok := r.Results[0].(*ssa.Alloc)
+		if !ok || !al.Heap {
+			return nil
+		}
+		es, ts, ok := c06AllocErr(al)
+		if !ok {
+			return nil
+		}
+		if es != nil {
+			if !es.Block().Dominates(b) {
+				return nil // written on some paths only
+			}
+			if i := paramIdx(es.Val); i >= 0 {
+				ct.errParam = i
+			} else if !isNilConst(es.Val) {
+				if !gi.nonNil(es.Val, es.Block()) {
+					return nil
+				}
+				ct.errFail = true
+			}
+		}
+		if ts != nil && ts.Block().Dominates(b) {
+			if i := paramIdx(ts.Val); i >= 0 {
+				ct.typeParam = i
+			} else if k, isK := ts.Val.(*ssa.Const); isK {
+				ct.typeConst = constString(k)
+			}
+		}
+		if out != nil && *out != *ct {
+			return nil
+		}
+		out = ct
+	}
+	c06CtorMemo[g] = out
+	return out
+}
+
+// c06YieldsType: fn produces a result object whose Type is the (quoted) constant: it fills one in itself, or obtains it
+// from a constructor that it hands the constant, or that is specific to that constant.
+func c06YieldsType(w *World, fn *ssa.Function, konst string) bool {
+	if allocatesType(w, fn, konst) {
+		return true
+	}
+	for _, ci := range allCalls(fn) {
+		call, ok := ci.(*ssa.Call)
+		if !ok {
+			continue
+		}
+		ct := c06CtorOf(w, staticCallee(call))
+		if ct == nil {
+			continue
+		}
+		if ct.typeConst == konst {
+			return true
+		}
+		if ct.typeParam >= 0 && ct.typeParam < len(call.Call.Args) {
+			if k, isK := call.Call.Args[ct.typeParam].(*ssa.Const); isK && constString(k) == konst {
+				return true
+			}
+		}
+	}
+	return false
+}
+
+// c06RetErr: what the error field of the result object returned as result K holds at this return.
+//   - built: the object is obtained from a constructor call (not a literal of the function itself);
+//   - isNil: the field is never written / written with nil; isFail: it provably holds a failure;
+//   - otherwise val is the value it holds (a variable assigned on the branches, the error of a call, ...).
+type c06RetErr struct {
+	val           ssa.Value
+	isNil, isFail bool
+	built         bool
+}
+
+func c06RetErrOf(w *World, fi *FnInfo, r *ssa.Return, K int) (c06RetErr, bool) {
+	if K >= len(r.Results) {
+		return c06RetErr{}, false
+	}
+	switch x := r.Results[K].(type) {
+	case *ssa.Alloc:
+		es, _, ok := c06AllocErr(x)
+		if !ok || es == nil || !es.Block().Dominates(r.Block()) {
+			return c06RetErr{}, false
+		}
+		return c06RetErr{val: es.Val, isNil: isNilConst(es.Val)}, true
+	case *ssa.Call:
+		ct := c06CtorOf(w, staticCallee(x))
+		if ct == nil || x.Call.IsInvoke() {
+			return c06RetErr{}, false
+		}
+		// the object goes from the constructor straight to the caller: nothing is written into it in between
+		if refs := x.Referrers(); refs != nil {
+			for _, ref := range *refs {
+				switch ref.(type) {
+				case *ssa.Return, *ssa.DebugRef:
+				default:
+					return c06RetErr{}, false
+				}
+			}
+		}
+		switch {
+		case ct.errFail:
+			return c06RetErr{isFail: true, built: true}, true
+		case ct.errParam < 0:
+			return c06RetErr{isNil: true, built: true}, true
+		case ct.errParam < len(x.Call.Args):
+			v := x.Call.Args[ct.errParam]
+			return c06RetErr{val: v, isNil: isNilConst(v), isFail: !isNilConst(v) && fi.nonNil(v, r.Block()), built: true}, true
+		}
+	}
+	return c06RetErr{}, false
+}
+
+// c06PhiRet: a return of a fresh result object (a literal, or a constructor call) whose error is a variable that was
+// assigned on the branches (a phi). The phi's block dominates the return, lies on no cycle, and every return reachable
+// from it is this one: the edge through which the phi's block is entered decides the error this exit reports.
 type c06PhiRet struct {
 	ret *ssa.Return
 	phi *ssa.Phi
@@ -549,38 +780,12 @@ func c06PhiRets(fi *FnInfo, K int) []c06PhiRet {
 		if !ok || K >= len(r.Results) {
 			continue
 		}
-		al, ok := r.Results[K].(*ssa.Alloc)
+		re, ok := c06RetErrOf(fi.W, fi, r, K)
 		if !ok {
 			continue
 		}
-		ef := errFieldOf(al.Type())
-		if ef < 0 {
-			continue
-		}
-		var phi *ssa.Phi
-		stores, clean := 0, true
-		for _, ref := range *al.Referrers() {
-			switch x := ref.(type) {
-			case *ssa.DebugRef, *ssa.Return:
-			case *ssa.FieldAddr:
-				for _, rr := range *x.Referrers() {
-					st, isSt := rr.(*ssa.Store)
-					if !isSt || st.Addr != x {
-						if _, isDbg := rr.(*ssa.DebugRef); !isDbg {
-							clean = false
-						}
-						continue
-					}
-					if x.Field == ef {
-						stores++
-						phi, _ = st.Val.(*ssa.Phi)
-					}
-				}
-			default:
-				clean = false
-			}
-		}
-		if !clean || stores != 1 || phi == nil {
+		phi, _ := re.val.(*ssa.Phi)
+		if phi == nil {
 			continue
 		}
 		pb := phi.Block()
@@ -619,14 +824,31 @@ func c06PhiRets(fi *FnInfo, K int) []c06PhiRet {
 	return out
 }
 
-// c06FailCut: the edges into such a phi's block on which the variable holds a provably non-nil error. Every path through
-// one of them ends at that return with a failure, so removing them removes no success path.
+// c06FailCut: the edges into such a phi's block on which the variable holds a provably non-nil error, and the edges into
+// a return whose constructor-built result carries a provably non-nil error. Every path through one of them ends at that
+// return with a failure, so removing them removes no success path.
+// With fi.ignoreTail set (exits that merely forward the verdict of one of these calls are set aside, as the engine does
+// for literal results), the edges on which the reported error is the error of such a call are removed as well.
 func c06FailCut(fi *FnInfo, K int) map[edgeKey]bool {
 	cut := map[edgeKey]bool{}
+	dead := func(e ssa.Value, at *ssa.BasicBlock) bool {
+		if isNilConst(e) {
+			return false
+		}
+		if fi.nonNil(e, at) {
+			return true
+		}
+		if t := callOf(e); t != nil && isErrorType(e.Type()) && fi.ignoreTail[t] {
+			return true
+		}
+		return false
+	}
+	phiRet := map[*ssa.Return]bool{}
 	for _, pr := range c06PhiRets(fi, K) {
+		phiRet[pr.ret] = true
 		pb := pr.phi.Block()
 		for i, e := range pr.phi.Edges {
-			if isNilConst(e) || !fi.nonNil(e, pb.Preds[i]) {
+			if !dead(e, pb.Preds[i]) {
 				continue
 			}
 			for j, s := range pb.Preds[i].Succs {
@@ -634,7 +856,7 @@ func c06FailCut(fi *FnInfo, K int) map[edgeKey]bool {
 					// a predecessor listed twice (both branches to the same block) carries one value per edge; cut only if all agree
 					same := true
 					for i2, p2 := range pb.Preds {
-						if p2 == pb.Preds[i] && (isNilConst(pr.phi.Edges[i2]) || !fi.nonNil(pr.phi.Edges[i2], p2)) {
+						if p2 == pb.Preds[i] && !dead(pr.phi.Edges[i2], p2) {
 							same = false
 						}
 					}
@@ -645,10 +867,26 @@ func c06FailCut(fi *FnInfo, K int) map[edgeKey]bool {
 			}
 		}
 	}
+	// a constructor-built result whose error argument is not a variable: the return block has no successor, so a block
+	// whose result is a failure can be removed as a whole
+	for _, b := range fi.Fn.Blocks {
+		r, ok := blockTerm(b).(*ssa.Return)
+		if !ok || phiRet[r] {
+			continue
+		}
+		re, ok := c06RetErrOf(fi.W, fi, r, K)
+		if !ok || !re.built || re.isNil {
+			continue
+		}
+		if re.isFail || (re.val != nil && dead(re.val, b)) {
+			cutInto(fi, b, cut)
+		}
+	}
 	return cut
 }
 
-// c06Witness: successWitness that also understands the error-variable shape of result objects.
+// c06Witness: successWitness that also understands the error-variable shape of result objects and results built by a
+// constructor.
 func c06Witness(fi *FnInfo, mode Mode, starts []state, cut map[edgeKey]bool) []string {
 	if mode.Kind == mObj {
 		merged := map[edgeKey]bool{}
@@ -666,6 +904,7 @@ func c06Witness(fi *FnInfo, mode Mode, starts []state, cut map[edgeKey]bool) []s
 // c06ObjExits: the success-capable exits of fn under mObj, with an exit of the error-variable shape split into one exit
 // per entering edge of the phi's block: facts = what every path from the entry to that edge passes; an edge that carries
 // the error of a call is a tail exit of that call, a nil edge a success exit, a provably non-nil edge no exit.
+// An exit whose result is built by a constructor reports the constructor's error argument in the same way.
 func c06ObjExits(w *World, fn *ssa.Function, K int) ([]*ExitSum, int) {
 	fi := w.Info(fn)
 	s := w.Summarize(fn, Mode{Kind: mObj, K: K})
@@ -673,12 +912,45 @@ func c06ObjExits(w *World, fn *ssa.Function, K int) ([]*ExitSum, int) {
 	for _, pr := range c06PhiRets(fi, K) {
 		phiOf[pr.ret] = pr.phi
 	}
+	// tailOf: the exit reports the error of call t — it succeeds when t does, after everything t checks
+	tailOf := func(nx *ExitSum, e ssa.Value) {
+		t := callOf(e)
+		if t == nil || !isErrorType(e.Type()) {
+			return
+		}
+		nx.Tail = calleeName(t)
+		if ts := w.summarizeCall(t, Mode{Kind: mErr}); ts != nil {
+			for l, st := range ts.Checked {
+				if _, has := nx.Checked[l]; !has {
+					nx.Checked[l] = st
+				}
+			}
+		}
+		nx.Checked["EQ("+descTailErr(t)+",nil)"] = w.InstrPos(t)
+	}
 	var out []*ExitSum
 	done := map[*ssa.Return]bool{}
 	for _, ex := range s.Exits {
 		phi := phiOf[ex.Ret]
 		if phi == nil {
-			out = append(out, ex)
+			re, ok := c06RetErrOf(w, fi, ex.Ret, K)
+			if !ok || !re.built {
+				out = append(out, ex)
+				continue
+			}
+			if re.isFail {
+				continue
+			}
+			nx := &ExitSum{Ret: ex.Ret, Pred: ex.Pred, Class: clMaybe, Checked: map[string]string{}, InheritParam: -1, InheritField: -1}
+			for l, st := range ex.Checked {
+				nx.Checked[l] = st
+			}
+			if re.isNil {
+				nx.Class = clSuccess
+			} else {
+				tailOf(nx, re.val)
+			}
+			out = append(out, nx)
 			continue
 		}
 		if done[ex.Ret] {
@@ -709,16 +981,8 @@ func c06ObjExits(w *World, fn *ssa.Function, K int) ([]*ExitSum, int) {
 			nx := &ExitSum{Ret: ex.Ret, Pred: i, Class: clMaybe, Checked: labels, InheritParam: -1, InheritField: -1}
 			if isNilConst(e) {
 				nx.Class = clSuccess
-			} else if t := callOf(e); t != nil && isErrorType(e.Type()) {
-				nx.Tail = calleeName(t)
-				if ts := w.summarizeCall(t, Mode{Kind: mErr}); ts != nil {
-					for l, st := range ts.Checked {
-						if _, has := nx.Checked[l]; !has {
-							nx.Checked[l] = st
-						}
-					}
-				}
-				nx.Checked["EQ("+descTailErr(t)+",nil)"] = w.InstrPos(t)
+			} else {
+				tailOf(nx, e)
 			}
 			out = append(out, nx)
 		}
@@ -1100,4 +1364,426 @@ func c06HasFact(facts map[string]bool, pre, suf string) bool {
 		}
 	}
 	return false
+}
+
+// ---------- the timestamp function and its helpers ---------------------------------------------------------------------------
+
+// c06ReachesParse: the countersignature is parsed in g or in a module function g (transitively) calls.
+func c06ReachesParse(w *World, g *ssa.Function) bool {
+	if g == nil || g.Blocks == nil {
+		return false
+	}
+	if r, ok := c06ParseMemo[g]; ok {
+		return r
+	}
+	r := false
+	for _, f := range w.moduleCallees(g) {
+		if len(findCalls(f, "tspclient.ParseSignedToken")) > 0 {
+			r = true
+			break
+		}
+	}
+	c06ParseMemo[g] = r
+	return r
+}
+
+var c06ParseMemo = map[*ssa.Function]bool{}
+
+// c06TsBlocks: where the timestamp regime begins in T — the block of the countersignature presence test (or of the
+// parsing) if T does that itself, otherwise the block(s) from which T calls the helper that does. Whether control reaches
+// such a block is "the countersignature is going to be verified"; what lies behind it is judged by the must-pass facts the
+// engine composes through the calls.
+func c06TsBlocks(w *World, T *ssa.Function) []*ssa.BasicBlock {
+	if b := tsStopBlock(T); b != nil {
+		return []*ssa.BasicBlock{b}
+	}
+	var out []*ssa.BasicBlock
+	seen := map[*ssa.BasicBlock]bool{}
+	for _, ci := range allCalls(T) {
+		g := staticCallee(ci)
+		if g == nil || g == T || !w.IsProductFn(g) || !c06ReachesParse(w, g) {
+			continue
+		}
+		if b := ci.Block(); !seen[b] {
+			seen[b] = true
+			out = append(out, b)
+		}
+	}
+	return out
+}
+
+// c06LifterIn: the translation of a label of g — a function of T's call tree — into the frame T's own labels are judged
+// in: up the chain of single callers (c06FrameOf) until T is reached, then T's frame. A function that cannot be lifted
+// keeps its own frame (and a rule that needs the provenance of one of its parameters does not find it).
+func c06LifterIn(w *World, g, T *ssa.Function, frT *c06Frame) func(string) string {
+	if g == T {
+		return frT.lift
+	}
+	var chain []*c06Frame
+	cur := g
+	for i := 0; i < 4 && cur != T; i++ {
+		fr := c06FrameOf(w, cur)
+		if fr.Fn == cur {
+			break
+		}
+		chain = append(chain, fr)
+		cur = fr.Fn
+	}
+	return func(l string) string {
+		for _, fr := range chain {
+			l = fr.lift(l)
+		}
+		if cur == T {
+			l = frT.lift(l)
+		}
+		return l
+	}
+}
+
+// c06TreeCalls: the calls of the named callees in T and in the module functions T (transitively) calls.
+func c06TreeCalls(w *World, T *ssa.Function, names ...string) []*ssa.Call {
+	var out []*ssa.Call
+	for _, f := range w.moduleCallees(T) {
+		for _, ci := range findCalls(f, names...) {
+			if call, ok := ci.(*ssa.Call); ok {
+				out = append(out, call)
+			}
+		}
+	}
+	return out
+}
+
+// ---------- the regime decision, followed through helpers -----------------------------------------------------------------
+
+const c06aTuple = 100 // marker: the results of this call were bound to its Extract instructions
+
+// c06Explorer follows every abstract path of the timestamp function from its entry until it returns or enters the
+// timestamp regime, over the abstract inputs "a tsa store is listed", "the verifyTimestamp option" and "a certificate is
+// expired". It is the engine's abstract interpreter (same instruction semantics: Interp.eval) with one addition: a call of
+// a module function that takes part in the decision — it is handed an abstractly known value, or answers a boolean — is
+// followed into the callee with the abstract arguments bound to its parameters, and each of the callee's returns continues
+// the caller's path with the abstract value it returned. Executing the helper's body on the caller's values is what the
+// call does, so the table obtained is that of the program with the helper inlined.
+type c06Explorer struct {
+	w        *World
+	sc       *c06Scanner
+	root     *ssa.Function
+	stops    map[*ssa.BasicBlock]bool
+	G        *ssa.Function // the tsa-enabled helper: its answer is an abstract input
+	tsaIn    bool
+	expIn    bool
+	optIn    string
+	Steps    int
+	Overflow bool
+	outs     []c06XOut
+}
+
+type c06XFrame struct {
+	fn       *ssa.Function
+	lift     func(string) string
+	ip       *Interp
+	expScans map[*ssa.Call]*c06Scan
+	expEdge  map[*ssa.BasicBlock]int8
+	depth    int
+	parent   *c06XFrame
+}
+
+type c06PathKey struct {
+	b    *ssa.BasicBlock
+	saw  bool
+	vars string
+}
+
+type c06XOut struct {
+	Stop  *ssa.BasicBlock
+	Ret   *ssa.Return
+	Vals  []AVal
+	Saw   bool // the path took an edge "a certificate's NotAfter is before time.Now()" (or was told so by a proven scan)
+	Panic bool
+}
+
+func (x *c06Explorer) newFrame(fn *ssa.Function, lift func(string) string, parent *c06XFrame) *c06XFrame {
+	fr := &c06XFrame{fn: fn, lift: lift, parent: parent, expScans: map[*ssa.Call]*c06Scan{}, expEdge: map[*ssa.BasicBlock]int8{}}
+	if parent != nil {
+		fr.depth = parent.depth + 1
+	}
+	// the "chain expired" decision taken by a call instead of an inline loop: a boolean call q that is a whole-chain scan
+	// (helper containing the loop, or slices.ContainsFunc) with: q == Want  =>  for every certificate NotAfter is not before
+	// time.Now() (none expired), and q != Want  =>  for some certificate NotAfter is before time.Now() (one expired).
+	// Then q's answer is the abstract input "expired" of the decision table, exactly what the inline loop computes.
+	for _, s := range x.sc.scans(fn) {
+		if s.Call == nil || s.Exists == nil {
+			continue
+		}
+		if bt, isB := s.Call.Type().Underlying().(*types.Basic); !isB || bt.Kind() != types.Bool {
+			continue
+		}
+		chain := lift(s.Chain)
+		if !strings.HasSuffix(chain, ".SignerInfo.CertificateChain") {
+			continue
+		}
+		all, some := false, false
+		for l := range s.Facts {
+			if lift(l) == "NOTBEFORE("+chain+"[*].NotAfter,call:time.Now())" {
+				all = true
+			}
+		}
+		for l := range s.Exists {
+			if lift(l) == "BEFORE("+chain+"[*].NotAfter,call:time.Now())" {
+				some = true
+			}
+		}
+		if all && some {
+			fr.expScans[s.Call] = s
+		}
+	}
+	fr.ip = &Interp{Fn: fn, TrackStrings: true, IntTypes: map[string]bool{"*": true}} // integer constants are tracked: a helper may answer with an enumeration
+	fr.ip.Hook = func(in ssa.Instruction, env map[ssa.Value]AVal) (AVal, bool) {
+		if call, ok := in.(*ssa.Call); ok {
+			if s := fr.expScans[call]; s != nil {
+				return AVal{Kind: aBool, B: x.expIn != s.Want}, true
+			}
+		}
+		if ex, ok := in.(*ssa.Extract); ok {
+			if gc, isCall := ex.Tuple.(*ssa.Call); isCall && x.G != nil && staticCallee(gc) == x.G {
+				if ex.Index == 0 {
+					return AVal{Kind: aBool, B: x.tsaIn}, true
+				}
+				return AVal{Kind: aNil}, true
+			}
+		}
+		if v, ok := in.(ssa.Value); ok {
+			switch in.(type) {
+			case *ssa.UnOp, *ssa.Field:
+				if strings.HasSuffix(lift(desc(v)), ".VerifyTimestamp") {
+					return AVal{Kind: aStr, Str: x.optIn}, true
+				}
+			}
+		}
+		return AVal{}, false
+	}
+	return fr
+}
+
+// expiredEdge: the true edge of the block's branch carries "this certificate's NotAfter is before time.Now()".
+func (fr *c06XFrame) expiredEdge(from, to *ssa.BasicBlock) bool {
+	iff, ok := blockTerm(from).(*ssa.If)
+	if !ok || from.Succs[0] != to {
+		return false
+	}
+	r, ok := fr.expEdge[from]
+	if !ok {
+		r = -1
+		op, args := splitTopArgs(fr.lift(c06Canon(condLabel(iff.Cond, true))))
+		if op == "BEFORE" && len(args) == 2 && strings.HasSuffix(args[0], "].NotAfter") && args[1] == "call:time.Now()" {
+			r = 1
+		}
+		fr.expEdge[from] = r
+	}
+	return r == 1
+}
+
+func (fr *c06XFrame) onStack(g *ssa.Function) bool {
+	for f := fr; f != nil; f = f.parent {
+		if f.fn == g {
+			return true
+		}
+	}
+	return false
+}
+
+// seed binds the parameters of the frame's function: to the abstract value of the argument, and — whatever it is called —
+// to the option input when what the caller passes is the policy's VerifyTimestamp.
+func (x *c06Explorer) seed(fr *c06XFrame, env map[ssa.Value]AVal, args []AVal) {
+	for i, p := range fr.fn.Params {
+		a := top
+		if i < len(args) {
+			a = args[i]
+		}
+		if a.Kind == aTop && strings.HasSuffix(fr.lift("param:"+p.Name()), ".VerifyTimestamp") {
+			a = AVal{Kind: aStr, Str: x.optIn}
+		}
+		env[p] = a
+	}
+}
+
+// Run explores the root function under the current inputs.
+func (x *c06Explorer) Run(frT *c06Frame) []c06XOut {
+	x.outs = nil
+	fr := x.newFrame(x.root, frT.lift, nil)
+	env := map[ssa.Value]AVal{}
+	x.seed(fr, env, nil)
+	x.walk(fr, x.root.Blocks[0], 0, nil, env, map[c06PathKey]bool{}, false, true, func(o c06XOut) { x.outs = append(x.outs, o) })
+	return x.outs
+}
+
+func (x *c06Explorer) follow(fr *c06XFrame, c *ssa.Call, env map[ssa.Value]AVal) *ssa.Function {
+	g := staticCallee(c)
+	if g == nil || g.Blocks == nil || !x.w.IsProductFn(g) || c.Call.IsInvoke() || len(c.Call.Args) != len(g.Params) {
+		return nil
+	}
+	if g == x.G || fr.expScans[c] != nil || fr.depth >= 4 || fr.onStack(g) || c06ReachesParse(x.w, g) {
+		return nil
+	}
+	rs := g.Signature.Results()
+	for i := 0; i < rs.Len(); i++ {
+		if bt, ok := rs.At(i).Type().Underlying().(*types.Basic); ok && bt.Kind() == types.Bool {
+			return g
+		}
+	}
+	for _, a := range c.Call.Args {
+		if fr.ip.val(a, env).Kind != aTop {
+			return g
+		}
+	}
+	return nil
+}
+
+func (x *c06Explorer) walk(fr *c06XFrame, b *ssa.BasicBlock, idx int, from *ssa.BasicBlock, env map[ssa.Value]AVal, onPath map[c06PathKey]bool, saw, first bool, emit func(c06XOut)) {
+	if x.Overflow {
+		return
+	}
+	if x.Steps > 3000000 {
+		x.Overflow = true
+		return
+	}
+	ip := fr.ip
+	if idx == 0 {
+		if !first && fr.parent == nil && x.stops[b] {
+			emit(c06XOut{Stop: b, Saw: saw})
+			return
+		}
+		if from != nil {
+			pi := -1
+			for i, p := range b.Preds {
+				if p == from {
+					pi = i
+				}
+			}
+			newVals := map[ssa.Value]AVal{}
+			for _, in := range b.Instrs {
+				p, ok := in.(*ssa.Phi)
+				if !ok {
+					break
+				}
+				if pi >= 0 && pi < len(p.Edges) {
+					newVals[p] = ip.val(p.Edges[pi], env)
+				} else {
+					newVals[p] = top
+				}
+			}
+			for k, v := range newVals {
+				env[k] = v
+			}
+		}
+		// the block revisited on this path in the same abstract state (a loop went round and nothing changed): nothing new.
+		// The state is what the path has learnt (a certificate is expired) and the abstract values of the variables merged at
+		// the block (a flag the loop body sets or clears), so "expired, then not expired" is followed to its end.
+		pk := c06PathKey{b, saw, ""}
+		for _, in := range b.Instrs {
+			p, ok := in.(*ssa.Phi)
+			if !ok {
+				break
+			}
+			pk.vars += env[p].String() + "|"
+		}
+		if onPath[pk] {
+			return
+		}
+		onPath[pk] = true
+		defer delete(onPath, pk)
+	}
+	for i := idx; i < len(b.Instrs); i++ {
+		in := b.Instrs[i]
+		x.Steps++
+		switch t := in.(type) {
+		case *ssa.Phi:
+			continue
+		case *ssa.Return:
+			o := c06XOut{Ret: t, Saw: saw}
+			for _, r := range t.Results {
+				o.Vals = append(o.Vals, ip.val(r, env))
+			}
+			emit(o)
+			return
+		case *ssa.Panic:
+			emit(c06XOut{Panic: true, Saw: saw})
+			return
+		case *ssa.If:
+			cv := ip.val(t.Cond, env)
+			for j, s := range b.Succs {
+				if cv.Kind == aBool && cv.B != (j == 0) {
+					continue
+				}
+				e2 := env
+				if cv.Kind != aBool {
+					e2 = copyEnv(env)
+				}
+				x.walk(fr, s, 0, b, e2, onPath, saw || fr.expiredEdge(b, s), false, emit)
+			}
+			return
+		case *ssa.Jump:
+			x.walk(fr, b.Succs[0], 0, b, env, onPath, saw, false, emit)
+			return
+		case *ssa.Extract:
+			if tv, ok := env[t.Tuple]; ok && tv.Kind == c06aTuple {
+				if _, bound := env[t]; bound {
+					continue
+				}
+			}
+			ip.eval(in, env)
+		case *ssa.Call:
+			if s := fr.expScans[t]; s != nil && x.expIn {
+				saw = true
+			}
+			g := x.follow(fr, t, env)
+			if g == nil {
+				ip.eval(in, env)
+				switch calleeName(t) {
+				case "fmt.Errorf", "errors.New":
+					env[t] = AVal{Kind: aNonNil} // never nil (the engine's nonNil knows the same two)
+				}
+				continue
+			}
+			// the callee's frame: its labels name the caller's values
+			sub := &c06Sub{}
+			var args []AVal
+			for k, p := range g.Params {
+				sub.add("param:"+p.Name(), fr.lift(desc(t.Call.Args[k])))
+				args = append(args, ip.val(t.Call.Args[k], env))
+			}
+			asub := c06AllocSub(g)
+			cfr := x.newFrame(g, func(l string) string { return sub.apply(asub.apply(l)) }, fr)
+			cenv := map[ssa.Value]AVal{}
+			x.seed(cfr, cenv, args)
+			_, isTuple := t.Type().(*types.Tuple)
+			x.walk(cfr, g.Blocks[0], 0, nil, cenv, map[c06PathKey]bool{}, saw, true, func(o c06XOut) {
+				if o.Ret == nil {
+					if o.Panic {
+						emit(o)
+					}
+					return
+				}
+				e2 := copyEnv(env)
+				if isTuple {
+					e2[t] = AVal{Kind: c06aTuple}
+					if refs := t.Referrers(); refs != nil {
+						for _, r := range *refs {
+							if ex, ok := r.(*ssa.Extract); ok && ex.Index < len(o.Vals) {
+								e2[ex] = o.Vals[ex.Index]
+							}
+						}
+					}
+				} else if len(o.Vals) == 1 {
+					e2[t] = o.Vals[0]
+				} else {
+					e2[t] = top
+				}
+				x.walk(fr, b, i+1, from, e2, onPath, o.Saw, false, emit)
+			})
+			return
+		default:
+			ip.eval(in, env)
+		}
+	}
 }
